@@ -5,7 +5,7 @@ from __future__ import annotations
 
 import ast
 
-from .pyast import Unrecognised, clean, cstr, cstrs, find_def, if_chain, module_assign, parse, unparse
+from .pyast import Unrecognised, clean, cstr, cstrs, find_def, if_chain, module_assign, parse, pin, unparse
 
 
 def _chain_tests(fn, first_test):
@@ -73,8 +73,26 @@ def emit(repo: str) -> str:
     if raises != ["ValueError"]:
         raise Unrecognised(f"try_functions raises {raises}")
 
+    # PINS: small pure helpers whose BODIES the hand model (Model/Leaf.v: parsing_fn, container_conv, container_nargs, convert,
+    # postprocess) mirrors; any edit fails closed (see pyast.pin).  The if/elif ORDERS above stay separate facts.
+    pins = [
+        (find_def(ut, "is_homogeneous_tuple_type"), "is_homogeneous_tuple_type"),   # parsing_fn: homogeneous = all items equal
+        (find_def(ut, "get_container_nargs"), "get_container_nargs"),               # container_nargs
+        (gc, "get_argparse_type_for_container"),                                    # container_conv
+        (pp, "postprocess"),                                                        # postprocess arm bodies
+        (pe, "parse_enum"),                                                         # registry keyed by the enum CLASS
+        (find_def(fp, "parse_tuple"), "parse_tuple"),                               # KSeq: i-th converter for the i-th token
+        (gp, "get_parsing_fn"),
+        (tf, "try_functions"),
+        (find_def(fp, "parse_union"), "parse_union"),
+        (find_def(fp, "parse_optional"), "parse_optional"),
+    ]
+    pinned = [(name, pin(fn, name)) for fn, name in pins]
+
     return (
         "From SPV Require Import Base.Str Model.Leaf Gen.FactsBool.\nOpen Scope string_scope.\n"
+        + "Definition leaf_pinned_gen : list (string * string) := ["
+        + "; ".join(f"({cstr(n)}, {cstr(d)})" for n, d in pinned) + "].\n"
         f"Definition enum_miss_cls_gen : string := {cstr(miss)}.\n"
         f"Definition arg_options_chain_gen : list string := {cstrs(gao_tests)}.\n"
         f"Definition postprocess_chain_gen : list string := {cstrs(pp_tests)}.\n"
